@@ -134,6 +134,9 @@ pub enum Clock {
 
 /// gate numbers from here on mean "park at clock read number (gate - READ_GATE)" instead of a poll
 pub const READ_GATE: u64 = 1 << 40;
+/// gate number of "park when the search of this `go` starts, before its first node" (a message
+/// delivered here is already waiting in the channel when the search begins)
+pub const START_GATE: u64 = 1 << 41;
 
 #[derive(Clone, Debug)]
 pub struct Plan {
@@ -284,6 +287,10 @@ impl SearchHook for Hook {
             *c = Counters::default();
         }
         let _ = self.tx.send(Ev::Board(when, fen.to_string()));
+        if when == "before_search" && self.shared.plan.lock().unwrap().gates.contains(&START_GATE) {
+            let _ = self.tx.send(Ev::Parked(START_GATE));
+            let _ = self.release.recv();
+        }
     }
 }
 
